@@ -213,6 +213,21 @@ def main():
                         report('name-round-trip', version=v, attrs=a)
                 except Exception as e:  # noqa
                     report('name-exception', version=v, attrs=a, exc=e)
+        # an object that carries every field, also those version v cannot send: they must be left out
+        for k in range(4):
+            a = build(6, set(DEFINED[6]) - {EXT}, k)
+            a['uid'], a['gid'] = 1000 + k, 100
+            if v == 3:
+                a['atime'], a['mtime'] = a['atime'] % 2 ** 32, a['mtime'] % 2 ** 32
+            cases += 1
+            try:
+                pkt = SSHPacket(S.SFTPAttrs(**a).encode(v) + b'\x07tail')
+                got = as_dict(S.SFTPAttrs.decode(pkt, v))
+                if got != norm(v, a) or pkt.get_remaining_payload() != b'\x07tail':
+                    report('attrs-full-object', version=v, attrs=a,
+                           diff={f: (got[f], norm(v, a)[f]) for f in FIELDS if got[f] != norm(v, a)[f]})
+            except Exception as e:      # noqa
+                report('attrs-full-object-exception', version=v, attrs=a, exc=e)
         # flags the version does not define must be rejected
         for bit in range(32):
             fl = 1 << bit
